@@ -47,10 +47,28 @@ pub enum Site {
     ProbeFragAttach,
     /// Probe: text was appended to an existing DOM text node.
     ProbeTextMerge,
+    /// Probe: the tree builder moved children to a new parent.
+    ProbeReparent,
+    /// Probe: the tree builder removed a node from its parent.
+    ProbeRemoveFromParent,
+    /// Probe: attributes were merged into an existing element.
+    ProbeAddAttrs,
+    /// Probe: template contents were requested.
+    ProbeTemplate,
+    /// Probe: a node was inserted relative to a foster parent.
+    ProbeFosterParent,
+    /// Probe: a fragment marker or pseudo-element content was inserted into a node.
+    ProbeInsertChild,
+    /// Probe: a stylesheet rule matched an element.
+    ProbeRuleMatched,
+    /// Probe: an element was hidden by display: none.
+    ProbeDisplayNone,
+    /// Probe: an nth-child selector component was evaluated.
+    ProbeNthChild,
 }
 
 /// Number of distinct sites.
-pub const NUM_SITES: usize = Site::ProbeTextMerge as usize + 1;
+pub const NUM_SITES: usize = Site::ProbeNthChild as usize + 1;
 
 /// The first site index which is a pure probe (does not advance time).
 pub const FIRST_PROBE: usize = Site::ProbeTooNarrow as usize;
